@@ -60,7 +60,13 @@ func excOf(r OpResult) *pb.ExceptionResponse {
 func (c *Cluster) serveFrame(addr string, s *Server, f *Frame, frameNo int, compressed bool) {
 	id := f.Header.GetCallId()
 	send := func(resp proto.Message, exc *pb.ExceptionResponse, cells []KV) {
-		s.Send(EncodeResponseC(id, resp, exc, cells, compressed))
+		b := EncodeResponseC(id, resp, exc, cells, compressed)
+		if c.DelayResp[addr] {
+			// the server has executed the request; its response is on its way (slow network)
+			c.delayed = append(c.delayed, func() { s.Send(b) })
+			return
+		}
+		s.Send(b)
 	}
 	ident := func(row []byte) any { return string(row) } // tier W identifies a call by its row
 	switch req := f.Req.(type) {
@@ -157,5 +163,15 @@ func (c *Cluster) serveFrame(addr string, s *Server, f *Frame, frameNo int, comp
 		if !silent {
 			send(mr, nil, cells)
 		}
+	}
+}
+
+// ReleaseResponses delivers every delayed response, in order, and ends the delay.
+func (c *Cluster) ReleaseResponses() {
+	c.DelayResp = map[string]bool{}
+	d := c.delayed
+	c.delayed = nil
+	for _, f := range d {
+		f()
 	}
 }
